@@ -215,6 +215,27 @@ func checkOffsetsAndLengths(p *Program, r *Result, isSink func(ssa.CallInstructi
 		for _, ci := range adds {
 			n++
 			args := ci.Common().Args
+			// the position may be handed to the helper that calls Add: judge the snapshot where it is taken
+			if prm, isPrm := args[2].(*ssa.Parameter); isPrm {
+				idx := -1
+				for i, q := range ci.Parent().Params {
+					if q == prm {
+						idx = i
+					}
+				}
+				sites := p.staticCallers(ci.Parent())
+				if idx >= 0 && len(sites) > 0 {
+					for _, s := range sites {
+						if idx < len(s.Common().Args) {
+							checkSnapshot(p, r, s.Parent(), s.Common().Args[idx], "MessageIndexEntry.Offset", []string{"mcap.Writer.writeRecord"}, false, s, isSink)
+						}
+					}
+					if !isMessageLogTime(p, args[1]) {
+						r.violated("C05.b", funcName(ci.Parent()), "MessageIndexEntry.Timestamp", p.pos(ci.Pos()), "the message index entry does not carry the message's log time")
+					}
+					continue
+				}
+			}
 			checkSnapshot(p, r, ci.Parent(), args[2], "MessageIndexEntry.Offset", []string{"mcap.Writer.writeRecord"}, false, ci, isSink)
 			if !isMessageLogTime(p, args[1]) {
 				r.violated("C05.b", funcName(ci.Parent()), "MessageIndexEntry.Timestamp", p.pos(ci.Pos()), "the message index entry does not carry the message's log time")
